@@ -459,7 +459,7 @@ Good(T, lvl) ==
          UNION {{PDict(kd, <<<<PName(T.f[i]), x>>>>) : kd \in DictKinds(lvl), x \in (IF lvl = 0 THEN Good(T.a[i], 0) ELSE Few(Good(T.a[i], lvl + 1)))} : i \in 1..Len(T.f)}
     [] T.t = "array" ->
          LET es == IF lvl = 0 /\ T.n <= 2 /\ IsLeafTy(T.a[1]) THEN Good(T.a[1], 1) ELSE Few(Good(T.a[1], lvl + 1))
-         IN {PSeq(kd, s) : kd \in SeqKinds(lvl), s \in [1..T.n -> es]}
+         IN {PSeq(kd, s) : kd \in (IF IsLeafTy(T.a[1]) THEN SeqKinds(lvl) ELSE SeqKinds(lvl) \ {"tuple"}), s \in [1..T.n -> es]}
     [] T.t = "chararray" ->
          {PBytes(s) : s \in {t \in [1..T.n -> {97, 0, 127}] : TRUE}} \cup {PList([i \in 1..T.n |-> PInt(s[i])]) : s \in [1..T.n -> {98, 0, -128}]}
 
